@@ -456,6 +456,8 @@ def toks(sh):
             + ([("PARTICLE", end[0])] + opad_toks(end[1]) if end else [])
     if k == "sdef":
         _, lead, cls, pad, params = sh
+        if not params:
+            return opad_toks(lead) + dcls_toks(cls) + opad_toks(pad)
         return opad_toks(lead) + dcls_toks(cls) + pad_toks(pad) \
             + sum(([("KEYWORD", p[1])] + sep_toks(p[2]) + sval_toks(p[3]) for p in params), [])
     if k == "text":
@@ -473,9 +475,7 @@ def toks(sh):
 
 
 def representable(sh):
-    """False for the G_core sentences the Coq shape type cannot express (rendered here only)"""
-    if sh[0] == "sdef" and not sh[4]:
-        return False
+    """False for the G_core sentences the Coq shape type cannot express (none at present)"""
     return True
 
 
@@ -501,6 +501,8 @@ def prog(sh):
             + ["tally:%d:%s:%s" % (1 if seg else 0, dcls_args(cls), hx(end[0]) if end else "-")]
     if k == "sdef":
         _, lead, cls, pad, params = sh
+        if not params:
+            return opad_prog(lead) + opad_prog(pad) + ["sdef0:" + dcls_args(cls)]
 
         def sp(p):
             return sep_prog(p[2]) + sval_prog(p[3]) + ["spar:" + hx(p[1])]
@@ -1425,9 +1427,8 @@ class Gen:
         cls = self.dcls("sdef")
         n = r.choice([0, 1, 2, 3, 3, 5]) if r.random() < 0.12 else r.choice([1, 2, 3, 3, 5])
         if n == 0:
-            self.tags.add("sdef-empty")
             self.hit("SDEF:no-parameters")
-            return ["sdef", lead, cls, ["sp", 0], []]
+            return ["sdef", lead, cls, self.endp(), []]
         pad = self.pad()
         keys = r.sample(SDEF_KEYS, n)
         ps = []
@@ -1793,13 +1794,14 @@ def zaid_like(n):
             and n[3] is not None and len(n[3]) == 2 and n[4] is not None and n[4][0] in ("e", "E"))
 
 
-def _ptag(special, p, where, out):
-    if p == "c":
+def _ptag(special, p, where, out, in_list=False):
+    """after the ":" or "," of a classifier the lexers read u x y z c as particles; in a list (MODE, PAR=) they do not"""
+    if p == "c" and in_list:
         out.add("particle-comment:c")
-    if p in ("u", "x", "y", "z"):
+    if p in ("u", "x", "y", "z") and in_list:
         out.add("particle-keyword:" + p)
     if special or p in SYMBOL_PARTICLES:
-        if where == "cell" or p in "+-!/^_~@#":
+        if where == "cell" or p in "-!/^_~@#":
             out.add("particle-symbol:%s@%s" % (p, where))
 
 
@@ -1828,10 +1830,10 @@ def features(sh):
         if is_node(n, {"tand"}) and n[2] is None and n[3][0] in ("ccell", "cpar"):
             out.add("paren-then-complement")
         if is_node(n, {"svp"}):
-            _ptag(n[1][0], n[1][1], "data", out)
+            _ptag(n[1][0], n[1][1], "data", out, in_list=True)
         if is_node(n, {"dparts"}):
             for p in n[1]:
-                _ptag(p[0], p[1], "data", out)
+                _ptag(p[0], p[1], "data", out, in_list=True)
     if sh[0] in ("data", "tally", "sdef"):
         cls = sh[3] if sh[0] == "tally" else sh[2]
         if cls[0] == "+":
@@ -1879,11 +1881,9 @@ def features(sh):
 
 # feature prefixes that the open known findings of C12 are about -> can gen_core.without take the feature out?
 KNOWN_FEATURES = {
-    "particle-keyword:": True, "particle-symbol:": True, "particle-comment:": True, "tally-mod:+": True,
-    "sdef-empty": False, "paren-lead-pad:": True, "mat-plain-after-lib": True, "mul-real": True,
-    "paren-then-complement": True, "percell-shortcut:imp:j": True,
-    "percell-shortcut:imp:mul": True, "percell-shortcut:vol:mul": True, "lib-suffix-e": True,
-    "mul-then-shortcut": True,
+    "particle-keyword:": True, "particle-symbol:": True, "particle-comment:": True,
+    "paren-lead-pad:tally": True, "mul-real": True, "percell-shortcut:imp:j": True,
+    "percell-shortcut:imp:mul": True, "percell-shortcut:vol:mul": True, "mul-then-shortcut": True,
 }
 
 
